@@ -3,6 +3,7 @@ import Mathlib.Data.List.Nodup
 import Mathlib.Data.List.Perm.Subperm
 import Mathlib.Data.List.Perm.Basic
 import Mathlib.Tactic.Tauto
+import Mathlib.Algebra.Order.Ring.Rat
 import PgFdr.Model.C04
 
 /-! Helper lemmas for C04 (rescue regrouping). -/
@@ -465,5 +466,1257 @@ theorem decouple_spec (es : List (String × String)) (cuts : CutMap) (isProt : S
           · rw [hsub] at hc
             intro y hy
             exact (List.mem_filter.mp ((comps_sound es _ c hc).1 y (h3 y hy))).1
+
+/-- one `merge_groups` step on positions -/
+def mergeStep (gs : Groups) (i j : Nat) : Groups := (gs.set i (gs.getD i [] ++ gs.getD j [])).set j []
+
+theorem set_flatten_perm : ∀ (gs : Groups) (i : Nat) (x : List String), i < gs.length →
+    ((gs.set i x).flatten ++ gs.getD i []).Perm (x ++ gs.flatten) := by
+  intro gs
+  induction gs with
+  | nil => intro i x h; simp at h
+  | cons g rest ih =>
+    intro i x h
+    cases i with
+    | zero =>
+      simp only [List.set_cons_zero, List.flatten_cons, List.getD_cons_zero]
+      -- x ++ rest.flatten ++ g ~ x ++ (g ++ rest.flatten)
+      rw [List.append_assoc]
+      exact List.Perm.append_left x List.perm_append_comm
+    | succ k =>
+      simp only [List.set_cons_succ, List.flatten_cons, List.getD_cons_succ]
+      have hk : k < rest.length := by simpa using h
+      have := ih k x hk
+      -- g ++ (rest.set k x).flatten ++ rest.getD k [] ~ x ++ (g ++ rest.flatten)
+      rw [List.append_assoc]
+      refine (List.Perm.append_left g this).trans ?_
+      rw [← List.append_assoc, ← List.append_assoc]
+      exact List.Perm.append_right _ List.perm_append_comm
+
+theorem getD_set_ne (gs : Groups) (i j : Nat) (x : List String) (h : i ≠ j) :
+    (gs.set i x).getD j [] = gs.getD j [] := by
+  simp [List.getD, List.getElem?_set_ne h]
+
+theorem getD_set_eq (gs : Groups) (i : Nat) (x : List String) (h : i < gs.length) :
+    (gs.set i x).getD i [] = x := by
+  simp [List.getD, List.getElem?_set_self h]
+
+theorem mergeStep_length (gs : Groups) (i j : Nat) : (mergeStep gs i j).length = gs.length := by
+  simp [mergeStep]
+
+theorem mergeStep_perm (gs : Groups) (i j : Nat) (hij : i ≠ j) (hi : i < gs.length) (hj : j < gs.length) :
+    (mergeStep gs i j).flatten.Perm gs.flatten := by
+  unfold mergeStep
+  have h1 := set_flatten_perm gs i (gs.getD i [] ++ gs.getD j []) hi
+  have hj' : j < (gs.set i (gs.getD i [] ++ gs.getD j [])).length := by simpa using hj
+  have h2 := set_flatten_perm (gs.set i (gs.getD i [] ++ gs.getD j [])) j [] hj'
+  rw [getD_set_ne gs i j _ hij] at h2
+  simp only [List.nil_append] at h2
+  -- h2 : F2 ++ gj ~ F1 ; h1 : F1 ++ gi ~ (gi ++ gj) ++ F
+  have h3 : (((gs.set i (gs.getD i [] ++ gs.getD j [])).set j []).flatten ++ (gs.getD j [] ++ gs.getD i [])).Perm
+      (gs.flatten ++ (gs.getD j [] ++ gs.getD i [])) := by
+    rw [← List.append_assoc]
+    refine (List.Perm.append_right _ h2).trans (h1.trans ?_)
+    refine List.perm_append_comm.trans ?_
+    exact List.Perm.append_left _ List.perm_append_comm
+  exact (List.perm_append_right_iff _).mp h3
+
+theorem mergeStep_getD (gs : Groups) (i j k : Nat) (hij : i ≠ j) (hi : i < gs.length) (hj : j < gs.length) :
+    (mergeStep gs i j).getD k [] =
+      if k = j then [] else if k = i then gs.getD i [] ++ gs.getD j [] else gs.getD k [] := by
+  unfold mergeStep
+  by_cases hkj : k = j
+  · subst hkj
+    simp only [if_true]
+    exact getD_set_eq _ _ _ (by simpa using hj)
+  · simp only [hkj, if_false]
+    rw [getD_set_ne _ j k _ (Ne.symm hkj)]
+    by_cases hki : k = i
+    · subst hki; simp only [if_true]; exact getD_set_eq _ _ _ hi
+    · simp only [hki, if_false]; exact getD_set_ne _ i k _ (Ne.symm hki)
+
+/-! ### invariants of the merge fold -/
+
+/-- `(l, p)` is a pair the fold passes to `merge_groups`: head of a leaf and a later member -/
+def MergePair (lvs : List (List String)) (l p : String) : Prop := ∃ rest, (l :: rest) ∈ lvs ∧ p ∈ rest
+
+theorem applyLeaf_inv (idx : String → Option Nat) (Inv : Groups → Prop) (l : String) :
+    ∀ (rest : List String) (gs : Groups),
+      (∀ gs p, p ∈ rest → Inv gs → Inv (mergeGroups idx gs l p)) → Inv gs →
+      Inv (rest.foldl (fun acc p => mergeGroups idx acc l p) gs) := by
+  intro rest
+  induction rest with
+  | nil => intro gs _ h0; exact h0
+  | cons p t ih =>
+    intro gs hstep h0
+    simp only [List.foldl_cons]
+    exact ih _ (fun gs q hq => hstep gs q (List.mem_cons_of_mem _ hq)) (hstep gs p List.mem_cons_self h0)
+
+theorem applyLeaves_inv (idx : String → Option Nat) (Inv : Groups → Prop) :
+    ∀ (lvs : List (List String)) (gs : Groups),
+      (∀ gs l p, MergePair lvs l p → Inv gs → Inv (mergeGroups idx gs l p)) → Inv gs →
+      Inv (applyLeaves idx gs lvs) := by
+  intro lvs
+  induction lvs with
+  | nil => intro gs _ h0; exact h0
+  | cons leaf t ih =>
+    intro gs hstep h0
+    simp only [applyLeaves, List.foldl_cons]
+    have hleaf : Inv (applyLeaf idx gs leaf) := by
+      cases leaf with
+      | nil => exact h0
+      | cons l rest =>
+        simp only [applyLeaf]
+        exact applyLeaf_inv idx Inv l rest gs
+          (fun gs p hp => hstep gs l p ⟨rest, List.mem_cons_self, hp⟩) h0
+    exact ih _ (fun gs l p ⟨rest, hm, hp⟩ => hstep gs l p ⟨rest, List.mem_cons_of_mem _ hm, hp⟩) hleaf
+
+/-- leaves made of distinct protein nodes -/
+def GoodLeaves (N : Groups) (f : List PepInfo) (lvs : List (List String)) : Prop :=
+  ∀ leaf ∈ lvs, leaf.Nodup ∧ ∀ x ∈ leaf, x ∈ protNodes N f
+
+/-- every merge of the fold moves the whole slot of one unidentified group into the slot of another one -/
+theorem mergePair_spec (N : Groups) (f : List PepInfo) (hnd : N.flatten.Nodup) (lvs : List (List String))
+    (hg : GoodLeaves N f lvs) (l p : String) (hp : MergePair lvs l p) :
+    ∃ i j, idxOf N l = some i ∧ idxOf N p = some j ∧ i ≠ j ∧ i < N.length ∧ j < N.length ∧
+      (N.getD i []).head? = some l ∧ (N.getD j []).head? = some p ∧
+      i ∉ identifiedIdxs N f ∧ j ∉ identifiedIdxs N f ∧
+      ∀ gs, mergeGroups (idxOf N) gs l p = mergeStep gs i j := by
+  obtain ⟨rest, hm, hpr⟩ := hp
+  obtain ⟨hnodup, hprot⟩ := hg _ hm
+  obtain ⟨i, hi, hil, hih, hii⟩ := protNode_spec N f hnd l (hprot l List.mem_cons_self)
+  obtain ⟨j, hj, hjl, hjh, hji⟩ := protNode_spec N f hnd p (hprot p (List.mem_cons_of_mem _ hpr))
+  refine ⟨i, j, hi, hj, ?_, hil, hjl, hih, hjh, hii, hji, ?_⟩
+  · intro hij
+    subst hij
+    have : l = p := protNode_idx_inj N f hnd l p (hprot l List.mem_cons_self)
+      (hprot p (List.mem_cons_of_mem _ hpr)) (by rw [hi, hj])
+    subst this
+    exact (List.nodup_cons.mp hnodup).1 hpr
+  · intro gs
+    simp [mergeGroups, hi, hj, mergeStep]
+
+theorem applyLeaves_perm (N : Groups) (f : List PepInfo) (hnd : N.flatten.Nodup) (lvs : List (List String))
+    (hg : GoodLeaves N f lvs) :
+    (applyLeaves (idxOf N) N lvs).length = N.length ∧ (applyLeaves (idxOf N) N lvs).flatten.Perm N.flatten := by
+  apply applyLeaves_inv (idxOf N) (fun gs => gs.length = N.length ∧ gs.flatten.Perm N.flatten) lvs N
+  · intro gs l p hp ⟨hlen, hperm⟩
+    obtain ⟨i, j, _, _, hij, hi, hj, _, _, _, _, hm⟩ := mergePair_spec N f hnd lvs hg l p hp
+    rw [hm gs]
+    exact ⟨by rw [mergeStep_length, hlen],
+      (mergeStep_perm gs i j hij (by omega) (by omega)).trans hperm⟩
+  · exact ⟨rfl, List.Perm.refl _⟩
+
+/-- refinement: the members of one group of `N` are never separated -/
+theorem applyLeaves_block (N : Groups) (f : List PepInfo) (hnd : N.flatten.Nodup) (lvs : List (List String))
+    (hg : GoodLeaves N f lvs) :
+    ∀ n ∈ N, ∃ m, ∀ q ∈ n, q ∈ (applyLeaves (idxOf N) N lvs).getD m [] := by
+  have := applyLeaves_inv (idxOf N)
+    (fun gs => gs.length = N.length ∧ ∀ n ∈ N, ∃ m, ∀ q ∈ n, q ∈ gs.getD m []) lvs N ?_ ?_
+  · exact this.2
+  · intro gs l p hp ⟨hlen, hb⟩
+    obtain ⟨i, j, _, _, hij, hi, hj, _, _, _, _, hm⟩ := mergePair_spec N f hnd lvs hg l p hp
+    rw [hm gs]
+    refine ⟨by rw [mergeStep_length, hlen], ?_⟩
+    intro n hn
+    obtain ⟨m, hmem⟩ := hb n hn
+    by_cases hmj : m = j
+    · refine ⟨i, fun q hq => ?_⟩
+      rw [mergeStep_getD gs i j i hij (by omega) (by omega)]
+      simp only [hij, if_false, if_true]
+      exact List.mem_append_right _ (hmj ▸ hmem q hq)
+    · by_cases hmi : m = i
+      · refine ⟨i, fun q hq => ?_⟩
+        rw [mergeStep_getD gs i j i hij (by omega) (by omega)]
+        simp only [hij, if_false, if_true]
+        exact List.mem_append_left _ (hmi ▸ hmem q hq)
+      · refine ⟨m, fun q hq => ?_⟩
+        rw [mergeStep_getD gs i j m hij (by omega) (by omega)]
+        simp only [hmj, hmi, if_false]
+        exact hmem q hq
+  · refine ⟨rfl, fun n hn => ?_⟩
+    obtain ⟨m, hm, rfl⟩ := List.mem_iff_getElem.mp hn
+    exact ⟨m, fun q hq => by simpa [List.getD, List.getElem?_eq_getElem hm] using hq⟩
+
+/-- a slot that is no merge position keeps its content -/
+theorem applyLeaves_untouched (N : Groups) (f : List PepInfo) (hnd : N.flatten.Nodup) (lvs : List (List String))
+    (hg : GoodLeaves N f lvs) (k : Nat) (hk : k ∈ identifiedIdxs N f) :
+    (applyLeaves (idxOf N) N lvs).getD k [] = N.getD k [] := by
+  have := applyLeaves_inv (idxOf N)
+    (fun gs => gs.length = N.length ∧ gs.getD k [] = N.getD k []) lvs N ?_ ⟨rfl, rfl⟩
+  · exact this.2
+  · intro gs l p hp ⟨hlen, hb⟩
+    obtain ⟨i, j, _, _, hij, hi, hj, _, _, hii, hji, hm⟩ := mergePair_spec N f hnd lvs hg l p hp
+    rw [hm gs]
+    refine ⟨by rw [mergeStep_length, hlen], ?_⟩
+    rw [mergeStep_getD gs i j k hij (by omega) (by omega)]
+    have hkj : k ≠ j := fun h => hji (h ▸ hk)
+    have hki : k ≠ i := fun h => hii (h ▸ hk)
+    simp only [hkj, hki, if_false]
+    exact hb
+
+/-- every member of a slot belongs to a group whose leader is connected to the slot's original leader -/
+theorem applyLeaves_conn (N : Groups) (f : List PepInfo) (hnd : N.flatten.Nodup) (lvs : List (List String))
+    (hg : GoodLeaves N f lvs)
+    (hc : ∀ leaf ∈ lvs, ∀ x ∈ leaf, ∀ y ∈ leaf, Conn (edges N f) x y) :
+    ∀ m, ∀ q ∈ (applyLeaves (idxOf N) N lvs).getD m [],
+      ∃ lq h, leaderOf N q = some lq ∧ (N.getD m []).head? = some h ∧ Conn (edges N f) lq h := by
+  have := applyLeaves_inv (idxOf N)
+    (fun gs => gs.length = N.length ∧ ∀ m, ∀ q ∈ gs.getD m [],
+      ∃ lq h, leaderOf N q = some lq ∧ (N.getD m []).head? = some h ∧ Conn (edges N f) lq h) lvs N ?_ ?_
+  · exact this.2
+  · intro gs l p hp ⟨hlen, hb⟩
+    obtain ⟨i, j, _, _, hij, hi, hj, hih, hjh, _, _, hm⟩ := mergePair_spec N f hnd lvs hg l p hp
+    rw [hm gs]
+    refine ⟨by rw [mergeStep_length, hlen], ?_⟩
+    intro m q hq
+    rw [mergeStep_getD gs i j m hij (by omega) (by omega)] at hq
+    by_cases hmj : m = j
+    · simp [hmj] at hq
+    · simp only [hmj, if_false] at hq
+      by_cases hmi : m = i
+      · simp only [hmi, if_true] at hq
+        rcases List.mem_append.mp hq with hq | hq
+        · exact hmi ▸ hb i q hq
+        · obtain ⟨lq, h, h1, h2, h3⟩ := hb j q hq
+          rw [hjh] at h2
+          simp only [Option.some.injEq] at h2; subst h2
+          refine ⟨lq, l, h1, hmi ▸ hih, conn_trans _ lq p l h3 ?_⟩
+          obtain ⟨rest, hmem, hpr⟩ := hp
+          exact hc _ hmem p (List.mem_cons_of_mem _ hpr) l List.mem_cons_self
+      · simp only [hmi, if_false] at hq
+        exact hb m q hq
+  · refine ⟨rfl, fun m q hq => ?_⟩
+    by_cases hm : m < N.length
+    · have hget := getElem?_of_lt_getD N m hm
+      cases hg' : N.getD m [] with
+      | nil => rw [hg'] at hq; simp at hq
+      | cons a t =>
+        refine ⟨a, a, ?_, by simp, Relation.ReflTransGen.refl⟩
+        exact leaderOf_of_nodup N hnd m (N.getD m []) q a hget hq (by rw [hg']; simp)
+    · have : N.getD m [] = [] := by simp [List.getD, List.getElem?_eq_none (Nat.le_of_not_lt hm)]
+      rw [this] at hq; simp at hq
+
+/-! ### the leaves of the whole graph -/
+
+theorem leaves_spec (N : Groups) (f : List PepInfo) (cuts : CutMap) (lvs : List (List String))
+    (h : leaves N f cuts = .ok lvs) :
+    GoodLeaves N f lvs ∧ ∀ leaf ∈ lvs, ∀ x ∈ leaf, ∀ y ∈ leaf, Conn (edges N f) x y := by
+  unfold leaves at h
+  simp only at h
+  have key : ∀ leaf ∈ lvs, ∃ c ∈ comps (edges N f) (allNodes N f),
+      leaf.Nodup ∧ (∀ x ∈ leaf, x ∈ protNodes N f) ∧ ∀ x ∈ leaf, x ∈ c := by
+    intro leaf hleaf
+    obtain ⟨c, hc, x, hx, hlx⟩ := collect_ok _ _ _ h leaf hleaf
+    obtain ⟨h1, h2, h3⟩ := decouple_spec _ _ _ _ _ _ hx leaf hlx
+    exact ⟨c, hc, h1, fun y hy => by simpa using h2 y hy, h3⟩
+  constructor
+  · intro leaf hleaf
+    obtain ⟨c, _, h1, h2, _⟩ := key leaf hleaf
+    exact ⟨h1, h2⟩
+  · intro leaf hleaf x hx y hy
+    obtain ⟨c, hc, _, _, h3⟩ := key leaf hleaf
+    exact (comps_sound _ _ c hc).2.1 x (h3 x hx) y (h3 y hy)
+
+theorem mem_dropEmpty (gs : Groups) (g : List String) : g ∈ dropEmpty gs ↔ g ∈ gs ∧ g ≠ [] := by
+  simp [dropEmpty, List.mem_filter]
+
+theorem dropEmpty_flatten (gs : Groups) : (dropEmpty gs).flatten = gs.flatten := by
+  unfold dropEmpty
+  induction gs with
+  | nil => rfl
+  | cons a l ih =>
+    cases a with
+    | nil => simp [ih]
+    | cons x xs => simp [ih]
+
+theorem mem_iff_getD (gs : Groups) (g : List String) (hg : g ≠ []) : g ∈ gs ↔ ∃ m, gs.getD m [] = g := by
+  constructor
+  · intro h
+    obtain ⟨m, hm, rfl⟩ := List.mem_iff_getElem.mp h
+    exact ⟨m, by simp [List.getD, List.getElem?_eq_getElem hm]⟩
+  · rintro ⟨m, rfl⟩
+    by_cases hm : m < gs.length
+    · simp only [List.getD, List.getElem?_eq_getElem hm, Option.getD_some]; exact List.getElem_mem hm
+    · exfalso; apply hg; simp [List.getD, List.getElem?_eq_none (Nat.le_of_not_lt hm)]
+
+/-! ### `add_unseen_protein_groups` (DESIGN-lean-scratch §14.10) -/
+
+theorem flatten_filter_nonempty (l : Groups) : (l.filter (fun r => !r.isEmpty)).flatten = l.flatten :=
+  dropEmpty_flatten l
+
+theorem flatten_map_filter (l : Groups) (q : String → Bool) :
+    (l.map (List.filter q)).flatten = l.flatten.filter q := by
+  induction l with
+  | nil => rfl
+  | cons a l ih => rw [List.map_cons, List.flatten_cons, List.flatten_cons, List.filter_append, ih]
+
+/-- if the rescued groups are a partition of proteins that all occur in the first-pass partition, the
+    merged collection is a partition of exactly the first-pass proteins -/
+theorem merged_perm (new old : Groups) (hn : new.flatten.Nodup) (ho : old.flatten.Nodup)
+    (hsub : ∀ p ∈ new.flatten, p ∈ old.flatten) :
+    (merged new old).flatten.Perm old.flatten := by
+  unfold merged
+  rw [List.flatten_append, flatten_filter_nonempty]
+  have h1 : (old.map (remnant new.flatten)).flatten =
+      old.flatten.filter (fun p => decide (p ∉ new.flatten)) := by
+    unfold remnant; exact flatten_map_filter old _
+  rw [h1]
+  generalize new.flatten = known at *
+  generalize old.flatten = all at *
+  have hsplit : (all.filter (fun p => decide (p ∈ known)) ++
+      all.filter (fun p => decide (p ∉ known))).Perm all := by
+    have := List.filter_append_perm (fun p => decide (p ∈ known)) all
+    refine List.Perm.trans ?_ this
+    apply List.Perm.append_left
+    apply List.Perm.of_eq
+    apply List.filter_congr
+    intro x _; simp
+  refine List.Perm.trans ?_ hsplit
+  apply List.Perm.append_right
+  rw [List.perm_ext_iff_of_nodup hn (ho.filter _)]
+  intro p
+  simp only [List.mem_filter, decide_eq_true_eq]
+  exact ⟨fun h => ⟨hsub p h, h⟩, fun h => h.2⟩
+
+theorem merged_mem (new old : Groups) (g : List String) :
+    g ∈ merged new old ↔ g ∈ new ∨ (g ≠ [] ∧ ∃ g0 ∈ old, g = remnant new.flatten g0) := by
+  unfold merged
+  simp only [List.mem_append, List.mem_filter, List.mem_map, Bool.not_eq_true',
+    List.isEmpty_eq_false_iff]
+  constructor
+  · rintro (h | ⟨⟨g0, h0, rfl⟩, hne⟩)
+    · exact Or.inl h
+    · exact Or.inr ⟨hne, g0, h0, rfl⟩
+  · rintro (h | ⟨hne, g0, h0, rfl⟩)
+    · exact Or.inl h
+    · exact Or.inr ⟨⟨g0, h0, rfl⟩, hne⟩
+
+theorem absorbed_mem {ι : Type} (new : Groups) (old : List (List String × ι)) (g : List String × ι) :
+    g ∈ absorbed new old ↔ g ∈ old ∧ ∀ p ∈ g.1, p ∈ new.flatten := by
+  unfold absorbed remnant
+  simp only [List.mem_filter, List.isEmpty_iff, List.filter_eq_nil_iff, decide_eq_true_eq,
+    Decidable.not_not]
+
+theorem merged_nonempty (new old : Groups) (hn : ∀ g ∈ new, g ≠ []) :
+    ∀ g ∈ merged new old, g ≠ [] := by
+  intro g hg
+  rcases (merged_mem new old g).mp hg with h | ⟨h, _⟩
+  · exact hn g h
+  · exact h
+
+/-! ### the run -/
+
+/-- unfolding a successful run of the rescue stage -/
+theorem run_spec {ι : Type} (N : Groups) (old : List (List String × ι)) (pil : List PepInfo) (cutoff : Rat)
+    (cuts : CutMap) (out : RescueOut ι) (h : rescueGroupsN N old pil cutoff cuts = .ok out) :
+    ∃ lvs, leaves N (filterByCutoff pil cutoff) cuts = .ok lvs ∧
+      out.rescued = dropEmpty (applyLeaves (idxOf N) N lvs) ∧
+      out.filtered = filterByCutoff pil cutoff ∧
+      out.groups = merged out.rescued (old.map (·.1)) ∧
+      out.obsolete = (absorbed out.rescued old).map (fun g => g.1.map obsoleteName) ∧
+      out.obsoleteInfos = (absorbed out.rescued old).map (·.2) := by
+  unfold rescueGroupsN mergeWithRescued rescuedGroups at h
+  cases hl : leaves N (filterByCutoff pil cutoff) cuts with
+  | error e => simp [hl] at h
+  | ok lvs =>
+    simp only [hl, Except.ok.injEq] at h
+    subst h
+    exact ⟨lvs, rfl, rfl, rfl, rfl, rfl, rfl⟩
+
+theorem containsSub_of_prefix (pat : List Char) : ∀ (l : List Char), pat.isPrefixOf l = true → containsSub pat l = true := by
+  intro l h
+  cases l with
+  | nil =>
+    cases pat with
+    | nil => rfl
+    | cons a t => simp [List.isPrefixOf] at h
+  | cons c t => simp [containsSub, h]
+
+theorem isObsolete_placeholder (g : List String) : isObsolete (g.map obsoleteName) = true := by
+  unfold isObsolete allContain
+  simp only [List.all_map, List.all_eq_true, Function.comp]
+  intro p _
+  unfold strContains obsoleteName
+  apply containsSub_of_prefix
+  rw [String.toList_append]
+  simp
+
+theorem sublist_flatten {α : Type} {l1 l2 : List (List α)} (h : l1.Sublist l2) : l1.flatten.Sublist l2.flatten := by
+  induction h with
+  | slnil => exact List.Sublist.refl _
+  | cons a _ ih => rw [List.flatten_cons]; exact ih.trans (List.sublist_append_right _ _)
+  | cons_cons a _ ih => rw [List.flatten_cons, List.flatten_cons]; exact List.Sublist.append_left ih _
+
+theorem uniqueIdx_of_all_in (N : Groups) (hnd : N.flatten.Nodup) (k : Nat) (g : List String) (x : PepInfo)
+    (hk : N[k]? = some g) (hne : x.proteins ≠ []) (hall : ∀ p ∈ x.proteins, p ∈ g) :
+    uniqueIdx N x = some k := by
+  unfold uniqueIdx
+  cases hp : x.proteins with
+  | nil => exact absurd hp hne
+  | cons p ps =>
+    rw [hp] at hall
+    simp only
+    rw [idxOf_eq_of_nodup N hnd k g p hk (hall p List.mem_cons_self)]
+    simp only
+    have : ps.all (fun q => idxOf N q == some k) = true := by
+      rw [List.all_eq_true]
+      intro q hq
+      rw [idxOf_eq_of_nodup N hnd k g q hk (hall q (List.mem_cons_of_mem _ hq))]
+      simp
+    simp [this]
+
+/-- converse: a peptide unique to position `k` has all its proteins in the group at `k` -/
+theorem uniqueIdx_spec (N : Groups) (k : Nat) (x : PepInfo) (h : uniqueIdx N x = some k) :
+    x.proteins ≠ [] ∧ ∀ p ∈ x.proteins, p ∈ N.getD k [] := by
+  unfold uniqueIdx at h
+  cases hp : x.proteins with
+  | nil => simp [hp] at h
+  | cons p ps =>
+    simp only [hp] at h
+    cases hi : idxOf N p with
+    | none => simp [hi] at h
+    | some i =>
+      simp only [hi] at h
+      by_cases hall : ps.all (fun q => idxOf N q == some i) = true
+      · simp only [hall, if_true, Option.some.injEq] at h
+        subst h
+        refine ⟨by simp, ?_⟩
+        intro q hq
+        rcases List.mem_cons.mp hq with rfl | hq
+        · exact idxOf_mem N _ i hi
+        · rw [List.all_eq_true] at hall
+          have := hall q hq
+          simp only [beq_iff_eq] at this
+          exact idxOf_mem N q i this
+      · simp [hall] at h
+
+theorem mem_identifiedIdxs (N : Groups) (f : List PepInfo) (k : Nat) :
+    k ∈ identifiedIdxs N f ↔ ∃ x ∈ f, uniqueIdx N x = some k := by
+  simp [identifiedIdxs, List.mem_filterMap]
+
+theorem closed_of_fresh_nil (ad : String → List String) (S : List String) (h : fresh ad S = []) :
+    ∀ a ∈ S, ∀ b ∈ ad a, b ∈ S := by
+  intro a ha b hb
+  by_contra hnot
+  have : b ∈ fresh ad S := (mem_fresh ad S b).mpr ⟨⟨a, ha, hb⟩, hnot⟩
+  rw [h] at this; simp at this
+
+theorem closed_complete (ad : String → List String) (S : List String) (hcl : ∀ a ∈ S, ∀ b ∈ ad a, b ∈ S)
+    (s x : String) (hs : s ∈ S) (h : Relation.ReflTransGen (fun a b => b ∈ ad a) s x) : x ∈ S := by
+  induction h with
+  | refl => exact hs
+  | tail _ hstep ih => exact hcl _ ih _ hstep
+
+theorem iter_nodup (ad : String → List String) : ∀ (k : Nat) (S : List String), S.Nodup → (iter ad k S).Nodup := by
+  intro k
+  induction k with
+  | zero => intro S h; exact h
+  | succ k ih =>
+    intro S hS
+    simp only [iter]
+    split
+    · exact hS
+    · apply ih
+      rw [List.nodup_append]
+      refine ⟨hS, nodup_dedup _, ?_⟩
+      intro x hx y hy hxy
+      subst hxy
+      exact ((mem_fresh ad S x).mp hy).2 hx
+
+/-- with enough fuel (the number of nodes not yet collected) the result is closed -/
+theorem iter_closed (ad : String → List String) (U : List String)
+    (hadj : ∀ a ∈ U, ∀ b ∈ ad a, b ∈ U) :
+    ∀ (k : Nat) (S : List String), S.Nodup → (∀ x ∈ S, x ∈ U) → U.length ≤ S.length + k →
+      ∀ a ∈ iter ad k S, ∀ b ∈ ad a, b ∈ iter ad k S := by
+  intro k
+  induction k with
+  | zero =>
+    intro S hS hSU hlen a ha b hb
+    simp only [iter] at ha ⊢
+    have hsub : S.Subperm U := List.subperm_of_subset hS hSU
+    have hperm : S.Perm U := hsub.perm_of_length_le (by omega)
+    exact hperm.symm.subset (hadj a (hSU a ha) b hb)
+  | succ k ih =>
+    intro S hS hSU hlen a ha b hb
+    simp only [iter] at ha ⊢
+    split
+    · rename_i hnil
+      simp only [hnil, if_true] at ha
+      exact closed_of_fresh_nil ad S hnil a ha b hb
+    · rename_i hne
+      simp only [hne, if_false] at ha
+      have hfd : (fresh ad S).Nodup := nodup_dedup _
+      have hdisj : ∀ x ∈ S, x ∉ fresh ad S := fun x hx hxf => ((mem_fresh ad S x).mp hxf).2 hx
+      have hS' : (S ++ fresh ad S).Nodup := by
+        rw [List.nodup_append]
+        exact ⟨hS, hfd, fun x hx y hy hxy => hdisj x hx (hxy ▸ hy)⟩
+      have hSU' : ∀ x ∈ S ++ fresh ad S, x ∈ U := by
+        intro x hx
+        rcases List.mem_append.mp hx with hx | hx
+        · exact hSU x hx
+        · obtain ⟨⟨a', ha', hax⟩, _⟩ := (mem_fresh ad S x).mp hx
+          exact hadj a' (hSU a' ha') x hax
+      have hpos : 0 < (fresh ad S).length := List.length_pos_iff.mpr hne
+      exact ih _ hS' hSU' (by simp only [List.length_append]; omega) a ha b hb
+
+/-- the component of `s` in the sub-graph induced by `nodes` is exactly what is reachable from `s`
+    inside the sub-graph.  The node list may contain repetitions. -/
+theorem mem_component (es : List (String × String)) (nodes : List String) (s : String) (hs : s ∈ nodes) (x : String) :
+    x ∈ component es nodes s ↔ Relation.ReflTransGen (fun a b => b ∈ adjIn es nodes a) s x := by
+  constructor
+  · intro h
+    obtain ⟨s', hs', hr⟩ := iter_sound _ _ _ x h
+    simp only [List.mem_singleton] at hs'; subst hs'; exact hr
+  · intro h
+    -- work with the duplicate-free node list for the counting argument
+    have hadj : ∀ a ∈ dedup nodes, ∀ b ∈ adjIn es nodes a, b ∈ dedup nodes := by
+      intro a _ b hb
+      rw [mem_dedup]; exact ((mem_adjIn es nodes a b).mp hb).2.1
+    have hlen : (dedup nodes).length ≤ nodes.length := by
+      have : (dedup nodes).Subperm nodes :=
+        List.subperm_of_subset (nodup_dedup nodes) (fun x hx => (mem_dedup nodes x).mp hx)
+      exact this.length_le
+    have hcl := iter_closed (adjIn es nodes) (dedup nodes) hadj nodes.length [s] (by simp)
+      (by intro y hy; simp only [List.mem_singleton] at hy; subst hy; exact (mem_dedup nodes _).mpr hs)
+      (by simp; omega)
+    exact closed_complete _ _ hcl s x (iter_mono _ _ _ s (by simp)) h
+
+/-- a group has a peptide of its own: some filtered peptide maps only to members of the group -/
+def HasOwnPeptide (f : List PepInfo) (g : List String) : Prop :=
+  ∃ x ∈ f, x.proteins ≠ [] ∧ ∀ p ∈ x.proteins, p ∈ g
+
+theorem allNodes_closed (N : Groups) (f : List PepInfo) (a b : String) (_ha : a ∈ allNodes N f)
+    (hb : b ∈ adj (edges N f) a) : b ∈ allNodes N f := by
+  unfold allNodes at *
+  rw [mem_dedup] at *
+  rw [mem_adj] at hb
+  have hsrc : ∀ u v, (u, v) ∈ edges N f → u ∈ protNodes N f := by
+    intro u v h
+    unfold edges at h
+    simp only [List.mem_flatMap, List.mem_map, Prod.mk.injEq] at h
+    obtain ⟨a', ha', x, _, rfl, _⟩ := h
+    exact ha'
+  rcases hb with hb | hb
+  · exact List.mem_append_right _ (List.mem_map.mpr ⟨(a, b), hb, rfl⟩)
+  · exact List.mem_append_left _ (hsrc b a hb)
+
+theorem rtg_adjIn_of_conn (N : Groups) (f : List PepInfo) (s x : String) (hs : s ∈ allNodes N f)
+    (h : Conn (edges N f) s x) :
+    Relation.ReflTransGen (fun a b => b ∈ adjIn (edges N f) (allNodes N f) a) s x ∧ x ∈ allNodes N f := by
+  induction h with
+  | refl => exact ⟨Relation.ReflTransGen.refl, hs⟩
+  | tail _ hstep ih =>
+    have hb := allNodes_closed N f _ _ ih.2 hstep
+    exact ⟨Relation.ReflTransGen.tail ih.1 ((mem_adjIn _ _ _ _).mpr ⟨ih.2, hb, hstep⟩), hb⟩
+
+theorem collect_error {α β : Type} (f : α → Except String (List β)) :
+    ∀ (l : List α) (e : String), collect f l = .error e → ∃ a ∈ l, f a = .error e := by
+  intro l
+  induction l with
+  | nil => intro e h; simp [collect] at h
+  | cons a t ih =>
+    intro e h
+    simp only [collect] at h
+    cases hfa : f a with
+    | error e' =>
+      simp only [hfa, Except.error.injEq] at h
+      subst h
+      exact ⟨a, List.mem_cons_self, hfa⟩
+    | ok x =>
+      simp only [hfa] at h
+      cases hct : collect f t with
+      | error e' =>
+        simp only [hct, Except.error.injEq] at h
+        subst h
+        obtain ⟨a', ha', h'⟩ := ih e' hct
+        exact ⟨a', List.mem_cons_of_mem _ ha', h'⟩
+      | ok y => simp [hct] at h
+
+theorem splitLoop_error (es : List (String × String)) (nodes B : List String) (cuts : CutMap) :
+    ∀ (ps : List (String × String)) (seen best : List (List String)) (e : String),
+      splitLoop es nodes B cuts ps seen best = .error e → e = "cut_lookup_miss" ∨ e = "empty_cut" := by
+  intro ps
+  induction ps with
+  | nil => intro seen best e h; simp [splitLoop] at h
+  | cons st rest ih =>
+    intro seen best e h
+    obtain ⟨s, t⟩ := st
+    simp only [splitLoop] at h
+    cases hl : List.lookup (sortDedup nodes, s, t) cuts with
+    | none => simp only [hl, Except.error.injEq] at h; exact Or.inl h.symm
+    | some cut0 =>
+      simp only [hl] at h
+      by_cases hne : sortDedup cut0 = []
+      · simp only [hne, if_true, Except.error.injEq] at h; exact Or.inr h.symm
+      · simp only [hne, if_false] at h
+        split at h
+        · split at h
+          · split at h
+            · simp at h
+            · exact ih _ _ e h
+          · exact ih _ _ e h
+        · exact ih _ _ e h
+
+theorem component_nodup (es : List (String × String)) (nodes : List String) (s : String) :
+    (component es nodes s).Nodup := iter_nodup _ _ _ (by simp)
+
+theorem comps_nodup (es : List (String × String)) (nodes : List String) (c : List String)
+    (h : c ∈ comps es nodes) : c.Nodup := by
+  obtain ⟨s, _, rfl⟩ := comps_spec es nodes c h
+  exact component_nodup es nodes s
+
+/-- a component of the sub-graph without a non-empty set of its nodes is shorter than the node list -/
+theorem comp_length_lt (es : List (String × String)) (nodes cut : List String) (x : String) (hx : x ∈ cut)
+    (hxn : x ∈ nodes) (c : List String) (hc : c ∈ comps es (nodes.filter (fun y => decide (y ∉ cut)))) :
+    c.length < nodes.length := by
+  have hsub : c.Subperm (nodes.filter (fun y => decide (y ∉ cut))) :=
+    List.subperm_of_subset (comps_nodup es _ c hc) (comps_sound es _ c hc).1
+  have h1 := hsub.length_le
+  have h2 : (nodes.filter (fun y => decide (y ∉ cut))).length < nodes.length := by
+    rw [List.length_filter_lt_length_iff_exists]
+    exact ⟨x, hxn, by simp [hx]⟩
+  omega
+
+/-- the decoupling never runs out of fuel: the only errors come from the recorded cut map -/
+theorem decouple_error (es : List (String × String)) (cuts : CutMap) (isProt : String → Bool) :
+    ∀ (fuel : Nat) (nodes : List String) (e : String), nodes.length < fuel →
+      decouple es cuts isProt fuel nodes = .error e → e = "cut_lookup_miss" ∨ e = "empty_cut" := by
+  intro fuel
+  induction fuel with
+  | zero => intro nodes e h; omega
+  | succ fuel ih =>
+    intro nodes e hlen h
+    simp only [decouple] at h
+    by_cases hA : (sortDedup (nodes.filter isProt)).length ≤ 1
+    · simp [hA] at h
+    · simp only [hA, if_false] at h
+      cases hs : splitLoop es nodes (sortDedup (nodes.filter (fun x => !isProt x))) cuts
+          (pairs (sortDedup (nodes.filter isProt))) [] [] with
+      | error e' =>
+        simp only [hs, Except.error.injEq] at h
+        subst h
+        exact splitLoop_error _ _ _ _ _ _ _ _ hs
+      | ok subs =>
+        simp only [hs] at h
+        cases subs with
+        | nil => simp at h
+        | cons s0 subs =>
+          simp only at h
+          obtain ⟨c, hc, hce⟩ := collect_error _ _ _ h
+          rcases splitLoop_spec es nodes _ cuts _ _ _ _ hs with hb | ⟨cut, hne, hB, hsub, _⟩
+          · simp at hb
+          · rw [hsub] at hc
+            obtain ⟨x, hx⟩ := List.exists_mem_of_ne_nil cut hne
+            have hxn : x ∈ nodes := by
+              have := hB x hx
+              rw [mem_sortDedup] at this
+              exact (List.mem_filter.mp this).1
+            have := comp_length_lt es nodes cut x hx hxn c hc
+            exact ih c e (by omega) hce
+
+/-! ### components: cover, disjointness, connectivity inside a sub-graph -/
+
+/-- connected inside the sub-graph induced by `nodes` -/
+def ConnIn (es : List (String × String)) (nodes : List String) (a b : String) : Prop :=
+  Relation.ReflTransGen (fun a b => b ∈ adjIn es nodes a) a b
+
+theorem adjIn_symm (es : List (String × String)) (nodes : List String) (a b : String)
+    (h : b ∈ adjIn es nodes a) : a ∈ adjIn es nodes b := by
+  rw [mem_adjIn] at *
+  exact ⟨h.2.1, h.1, adj_symm es a b h.2.2⟩
+
+theorem connIn_symm (es : List (String × String)) (nodes : List String) (a b : String)
+    (h : ConnIn es nodes a b) : ConnIn es nodes b a := by
+  unfold ConnIn at *
+  induction h with
+  | refl => exact Relation.ReflTransGen.refl
+  | tail _ hstep ih => exact Relation.ReflTransGen.head (adjIn_symm es nodes _ _ hstep) ih
+
+theorem connIn_trans (es : List (String × String)) (nodes : List String) (a b c : String)
+    (h1 : ConnIn es nodes a b) (h2 : ConnIn es nodes b c) : ConnIn es nodes a c :=
+  Relation.ReflTransGen.trans h1 h2
+
+theorem connIn_congr (es : List (String × String)) (n1 n2 : List String) (hmem : ∀ x, x ∈ n1 ↔ x ∈ n2)
+    (a b : String) (h : ConnIn es n1 a b) : ConnIn es n2 a b := by
+  unfold ConnIn at *
+  induction h with
+  | refl => exact Relation.ReflTransGen.refl
+  | tail _ hstep ih =>
+    refine Relation.ReflTransGen.tail ih ?_
+    rw [mem_adjIn] at *
+    exact ⟨(hmem _).mp hstep.1, (hmem _).mp hstep.2.1, hstep.2.2⟩
+
+theorem mem_component_iff (es : List (String × String)) (nodes : List String) (s : String) (hs : s ∈ nodes)
+    (x : String) : x ∈ component es nodes s ↔ ConnIn es nodes s x := mem_component es nodes s hs x
+
+/-- disjointness of two lists -/
+def Disj (a b : List String) : Prop := ∀ x ∈ a, x ∉ b
+
+theorem compsAux_cover (es : List (String × String)) (nodes : List String) :
+    ∀ (k : Nat) (l : List String), l.length ≤ k → ∀ x ∈ l, ∃ c ∈ compsAux es nodes k l, x ∈ c := by
+  intro k
+  induction k with
+  | zero =>
+    intro l hl x hx
+    have : l = [] := List.length_eq_zero_iff.mp (by omega)
+    subst this; simp at hx
+  | succ k ih =>
+    intro l hl x hx
+    cases l with
+    | nil => simp at hx
+    | cons s rest =>
+      simp only [compsAux]
+      by_cases hxc : x ∈ component es nodes s
+      · exact ⟨_, List.mem_cons_self, hxc⟩
+      · rcases List.mem_cons.mp hx with rfl | hxr
+        · exact absurd (seed_mem_component es nodes x) hxc
+        · have hxf : x ∈ rest.filter (fun y => decide (y ∉ component es nodes s)) := by
+            simp [List.mem_filter, hxr, hxc]
+          have hlen : (rest.filter (fun y => decide (y ∉ component es nodes s))).length ≤ k := by
+            have := List.length_filter_le (fun y => decide (y ∉ component es nodes s)) rest
+            simp only [List.length_cons] at hl
+            omega
+          obtain ⟨c, hc, hxc'⟩ := ih _ hlen x hxf
+          exact ⟨c, List.mem_cons_of_mem _ hc, hxc'⟩
+
+theorem comps_cover (es : List (String × String)) (nodes : List String) (x : String) (hx : x ∈ nodes) :
+    ∃ c ∈ comps es nodes, x ∈ c := compsAux_cover es nodes _ nodes (Nat.le_refl _) x hx
+
+theorem compsAux_disj (es : List (String × String)) (nodes : List String) :
+    ∀ (k : Nat) (l : List String), (∀ x ∈ l, x ∈ nodes) → (compsAux es nodes k l).Pairwise Disj := by
+  intro k
+  induction k with
+  | zero => intro l _; simp [compsAux]
+  | succ k ih =>
+    intro l hl
+    cases l with
+    | nil => simp [compsAux]
+    | cons s rest =>
+      simp only [compsAux]
+      rw [List.pairwise_cons]
+      have hs : s ∈ nodes := hl s List.mem_cons_self
+      constructor
+      · intro c' hc' x hx hx'
+        obtain ⟨s', hs', rfl⟩ := compsAux_spec es nodes _ _ c' hc'
+        have hs'm := List.mem_filter.mp hs'
+        have hs'n : s' ∈ nodes := hl s' (List.mem_cons_of_mem _ hs'm.1)
+        have h1 := (mem_component_iff es nodes s hs x).mp hx
+        have h2 := (mem_component_iff es nodes s' hs'n x).mp hx'
+        have : s' ∈ component es nodes s :=
+          (mem_component_iff es nodes s hs s').mpr (connIn_trans es nodes s x s' h1 (connIn_symm es nodes s' x h2))
+        simpa [this] using hs'm.2
+      · exact ih _ (fun x hx => hl x (List.mem_cons_of_mem _ (List.mem_filter.mp hx).1))
+
+theorem comps_disj (es : List (String × String)) (nodes : List String) : (comps es nodes).Pairwise Disj :=
+  compsAux_disj es nodes _ nodes (fun _ h => h)
+
+/-- members of one component are connected inside the sub-graph -/
+theorem comps_connIn (es : List (String × String)) (nodes : List String) (c : List String)
+    (h : c ∈ comps es nodes) (x y : String) (hx : x ∈ c) (hy : y ∈ c) : ConnIn es nodes x y := by
+  obtain ⟨s, hs, rfl⟩ := comps_spec es nodes c h
+  exact connIn_trans es nodes x s y
+    (connIn_symm es nodes s x ((mem_component_iff es nodes s hs x).mp hx))
+    ((mem_component_iff es nodes s hs y).mp hy)
+
+/-! ### inseparable components -/
+
+/-- executable reading of `SeparableSet` below, through the model's component function: some non-empty
+    set of pseudo-peptide nodes whose removal leaves at least two components, each of at least two nodes -/
+def Separable (es : List (String × String)) (isProt : String → Bool) (c : List String) : Prop :=
+  ∃ cut : List String, cut ≠ [] ∧ (∀ x ∈ cut, x ∈ c ∧ isProt x = false) ∧
+    2 ≤ (comps es (c.filter (fun x => decide (x ∉ cut)))).length ∧
+    ∀ part ∈ comps es (c.filter (fun x => decide (x ∉ cut))), 2 ≤ part.length
+
+theorem collect_ok_mem {α β : Type} (f : α → Except String (List β)) :
+    ∀ (l : List α) (r : List β), collect f l = .ok r → ∀ a ∈ l, ∃ x, f a = .ok x ∧ ∀ b ∈ x, b ∈ r := by
+  intro l
+  induction l with
+  | nil => intro r _ a ha; simp at ha
+  | cons a0 t ih =>
+    intro r h a ha
+    simp only [collect] at h
+    cases hfa : f a0 with
+    | error e => simp [hfa] at h
+    | ok x =>
+      simp only [hfa] at h
+      cases hct : collect f t with
+      | error e => simp [hct] at h
+      | ok y =>
+        simp only [hct, Except.ok.injEq] at h
+        subst h
+        rcases List.mem_cons.mp ha with rfl | ha
+        · exact ⟨x, hfa, fun b hb => List.mem_append_left _ hb⟩
+        · obtain ⟨x', hx', hsub⟩ := ih y hct a ha
+          exact ⟨x', hx', fun b hb => List.mem_append_right _ (hsub b hb)⟩
+
+/-- results computed from pairwise disjoint node lists, each staying inside its node list, are
+    pairwise disjoint -/
+theorem collect_pairwise (f : List String → Except String (List (List String))) :
+    ∀ (l : List (List String)) (r : List (List String)), collect f l = .ok r → l.Pairwise Disj →
+      (∀ a ∈ l, ∀ x, f a = .ok x → x.Pairwise Disj ∧ ∀ leaf ∈ x, ∀ y ∈ leaf, y ∈ a) → r.Pairwise Disj := by
+  intro l
+  induction l with
+  | nil => intro r h _ _; simp only [collect, Except.ok.injEq] at h; subst h; exact List.Pairwise.nil
+  | cons a t ih =>
+    intro r h hl hin
+    simp only [collect] at h
+    cases hfa : f a with
+    | error e => simp [hfa] at h
+    | ok x =>
+      simp only [hfa] at h
+      cases hct : collect f t with
+      | error e => simp [hct] at h
+      | ok y =>
+        simp only [hct, Except.ok.injEq] at h
+        subst h
+        rw [List.pairwise_cons] at hl
+        rw [List.pairwise_append]
+        refine ⟨(hin a List.mem_cons_self x hfa).1,
+          ih y hct hl.2 (fun a' ha' => hin a' (List.mem_cons_of_mem _ ha')), ?_⟩
+        intro leaf hleaf leaf' hleaf' z hz hz'
+        obtain ⟨a', ha', x', hx', hl'⟩ := collect_ok f t y hct leaf' hleaf'
+        have h1 := (hin a List.mem_cons_self x hfa).2 leaf hleaf z hz
+        have h2 := (hin a' (List.mem_cons_of_mem _ ha') x' hx').2 leaf' hl' z hz'
+        exact hl.1 a' ha' z h1 h2
+
+theorem decouple_disj (es : List (String × String)) (cuts : CutMap) (isProt : String → Bool) :
+    ∀ (fuel : Nat) (nodes : List String) (lvs : List (List String)),
+      decouple es cuts isProt fuel nodes = .ok lvs → lvs.Pairwise Disj := by
+  intro fuel
+  induction fuel with
+  | zero => intro nodes lvs h; simp [decouple] at h
+  | succ fuel ih =>
+    intro nodes lvs h
+    have h0 := h
+    simp only [decouple] at h
+    by_cases hlen : (sortDedup (nodes.filter isProt)).length ≤ 1
+    · simp only [hlen, if_true, Except.ok.injEq] at h; subst h; simp
+    · simp only [hlen, if_false] at h
+      cases hs : splitLoop es nodes (sortDedup (nodes.filter (fun x => !isProt x))) cuts
+          (pairs (sortDedup (nodes.filter isProt))) [] [] with
+      | error e => simp [hs] at h
+      | ok subs =>
+        simp only [hs] at h
+        cases subs with
+        | nil => simp only [Except.ok.injEq] at h; subst h; simp
+        | cons s0 subs =>
+          simp only at h
+          rcases splitLoop_spec es nodes _ cuts _ _ _ _ hs with hb | ⟨cut, _, _, hsub, _⟩
+          · simp at hb
+          · apply collect_pairwise _ _ _ h
+            · rw [hsub]; exact comps_disj es _
+            · intro a _ x hx
+              exact ⟨ih a x hx, fun leaf hleaf y hy => (decouple_spec es cuts isProt fuel a x hx leaf hleaf).2.2 y hy⟩
+
+theorem leaves_disj (N : Groups) (f : List PepInfo) (cuts : CutMap) (lvs : List (List String))
+    (h : leaves N f cuts = .ok lvs) : lvs.Pairwise Disj := by
+  unfold leaves at h
+  apply collect_pairwise _ _ _ h (comps_disj _ _)
+  intro a _ x hx
+  exact ⟨decouple_disj _ _ _ _ a x hx, fun leaf hleaf y hy => (decouple_spec _ _ _ _ a x hx leaf hleaf).2.2 y hy⟩
+
+theorem protNode_idx_ne (N : Groups) (f : List PepInfo) (hnd : N.flatten.Nodup) (x y : String)
+    (hx : x ∈ protNodes N f) (hy : y ∈ protNodes N f) (hne : x ≠ y) : idxOf N x ≠ idxOf N y :=
+  fun h => hne (protNode_idx_inj N f hnd x y hx hy h)
+
+/-- merging the members of one leaf gathers their groups in the slot of the leaf's first protein -/
+theorem applyLeaf_gather (N : Groups) (f : List PepInfo) (hnd : N.flatten.Nodup) (l0 : String)
+    (hl0 : l0 ∈ protNodes N f) (i0 : Nat) (hi0 : idxOf N l0 = some i0) :
+    ∀ (rest : List String) (gs : Groups), gs.length = N.length → rest.Nodup → l0 ∉ rest →
+      (∀ p ∈ rest, p ∈ protNodes N f) →
+      (∀ p ∈ rest, ∀ i, idxOf N p = some i → ∀ q ∈ N.getD i [], q ∈ gs.getD i []) →
+      (rest.foldl (fun acc p => mergeGroups (idxOf N) acc l0 p) gs).length = N.length ∧
+      (∀ q ∈ gs.getD i0 [], q ∈ (rest.foldl (fun acc p => mergeGroups (idxOf N) acc l0 p) gs).getD i0 []) ∧
+      (∀ p ∈ rest, ∀ i, idxOf N p = some i → ∀ q ∈ N.getD i [],
+        q ∈ (rest.foldl (fun acc p => mergeGroups (idxOf N) acc l0 p) gs).getD i0 []) := by
+  intro rest
+  induction rest with
+  | nil => intro gs hlen _ _ _ _; exact ⟨hlen, fun q hq => hq, fun p hp => by simp at hp⟩
+  | cons p t ih =>
+    intro gs hlen hnodup hl0r hprot hin
+    simp only [List.foldl_cons]
+    have hpn : p ∈ protNodes N f := hprot p List.mem_cons_self
+    obtain ⟨j, hj, hjlt, _, _⟩ := protNode_spec N f hnd p hpn
+    have hi0lt : i0 < N.length := idxOf_lt N l0 i0 hi0
+    have hl0p : l0 ≠ p := fun h => hl0r (h ▸ List.mem_cons_self)
+    have hij : i0 ≠ j := by
+      intro h
+      have := protNode_idx_ne N f hnd l0 p hl0 hpn hl0p
+      rw [hi0, hj, h] at this; exact this rfl
+    have hm : mergeGroups (idxOf N) gs l0 p = mergeStep gs i0 j := by simp [mergeGroups, hi0, hj, mergeStep]
+    rw [hm]
+    have hnd' := List.nodup_cons.mp hnodup
+    have hstep_len : (mergeStep gs i0 j).length = N.length := by rw [mergeStep_length, hlen]
+    have hin' : ∀ p' ∈ t, ∀ i, idxOf N p' = some i → ∀ q ∈ N.getD i [], q ∈ (mergeStep gs i0 j).getD i [] := by
+      intro p' hp' i hi q hq
+      have hp'n : p' ∈ protNodes N f := hprot p' (List.mem_cons_of_mem _ hp')
+      have hpp' : p ≠ p' := fun h => hnd'.1 (h ▸ hp')
+      have hl0p' : l0 ≠ p' := fun h => hl0r (h ▸ List.mem_cons_of_mem _ hp')
+      have hij' : i ≠ j := by
+        intro h
+        have := protNode_idx_ne N f hnd p p' hpn hp'n hpp'
+        rw [hj, hi, h] at this; exact this rfl
+      have hii0 : i ≠ i0 := by
+        intro h
+        have := protNode_idx_ne N f hnd l0 p' hl0 hp'n hl0p'
+        rw [hi0, hi, h] at this; exact this rfl
+      rw [mergeStep_getD gs i0 j i hij (by omega) (by omega)]
+      simp only [hij', hii0, if_false]
+      exact hin p' (List.mem_cons_of_mem _ hp') i hi q hq
+    obtain ⟨h1, h2, h3⟩ := ih (mergeStep gs i0 j) hstep_len hnd'.2
+      (fun h => hl0r (List.mem_cons_of_mem _ h)) (fun p' hp' => hprot p' (List.mem_cons_of_mem _ hp')) hin'
+    have hi0' : (mergeStep gs i0 j).getD i0 [] = gs.getD i0 [] ++ gs.getD j [] := by
+      rw [mergeStep_getD gs i0 j i0 hij (by omega) (by omega)]
+      simp [hij]
+    refine ⟨h1, ?_, ?_⟩
+    · intro q hq
+      apply h2; rw [hi0']; exact List.mem_append_left _ hq
+    · intro p' hp' i hi q hq
+      rcases List.mem_cons.mp hp' with rfl | hp'
+      · rw [hj] at hi
+        simp only [Option.some.injEq] at hi; subst hi
+        apply h2; rw [hi0']
+        exact List.mem_append_right _ (hin p' List.mem_cons_self j hj q hq)
+      · exact h3 p' hp' i hi q hq
+
+theorem applyLeaves_append (idx : String → Option Nat) (gs : Groups) (a b : List (List String)) :
+    applyLeaves idx gs (a ++ b) = applyLeaves idx (applyLeaves idx gs a) b := by
+  simp [applyLeaves, List.foldl_append]
+
+theorem goodLeaves_sub (N : Groups) (f : List PepInfo) (lvs sub : List (List String)) (hg : GoodLeaves N f lvs)
+    (hs : ∀ l ∈ sub, l ∈ lvs) : GoodLeaves N f sub := fun leaf hleaf => hg leaf (hs leaf hleaf)
+
+/-- the groups of all members of a leaf end in the slot of the leaf's first protein -/
+theorem applyLeaves_gather (N : Groups) (f : List PepInfo) (hnd : N.flatten.Nodup) (lvs : List (List String))
+    (hg : GoodLeaves N f lvs) (hd : lvs.Pairwise Disj) (l0 : String) (rest : List String)
+    (hL : (l0 :: rest) ∈ lvs) (i0 : Nat) (hi0 : idxOf N l0 = some i0) :
+    ∀ p ∈ l0 :: rest, ∀ i, idxOf N p = some i → ∀ q ∈ N.getD i [],
+      q ∈ (applyLeaves (idxOf N) N lvs).getD i0 [] := by
+  obtain ⟨pre, post, rfl⟩ := List.append_of_mem hL
+  rw [List.pairwise_append] at hd
+  obtain ⟨_, hdpost, hdpre⟩ := hd
+  rw [List.pairwise_cons] at hdpost
+  have hgL := hg (l0 :: rest) hL
+  have hl0n : l0 ∈ protNodes N f := hgL.2 l0 List.mem_cons_self
+  have hLnd := List.nodup_cons.mp hgL.1
+  -- phase 1: the leaves before `L` leave the slots of `L` alone
+  have hpre : (applyLeaves (idxOf N) N pre).length = N.length ∧
+      ∀ p ∈ l0 :: rest, ∀ i, idxOf N p = some i → (applyLeaves (idxOf N) N pre).getD i [] = N.getD i [] := by
+    apply applyLeaves_inv (idxOf N) (fun gs => gs.length = N.length ∧
+      ∀ p ∈ l0 :: rest, ∀ i, idxOf N p = some i → gs.getD i [] = N.getD i []) pre N
+    · intro gs l p hp ⟨hlen, hb⟩
+      obtain ⟨r', hm', hp'⟩ := hp
+      have hmp : MergePair (pre ++ (l0 :: rest) :: post) l p := ⟨r', List.mem_append_left _ hm', hp'⟩
+      obtain ⟨i, j, hi, hj, hij, hilt, hjlt, _, _, _, _, hm⟩ := mergePair_spec N f hnd _ hg l p hmp
+      rw [hm gs]
+      refine ⟨by rw [mergeStep_length, hlen], ?_⟩
+      intro x hx k hk
+      have hgl := hg (l :: r') (List.mem_append_left _ hm')
+      have hxn : x ∈ protNodes N f := hgL.2 x hx
+      have hdis := hdpre (l :: r') hm' (l0 :: rest) List.mem_cons_self
+      have hxl : x ≠ l := fun h => hdis l List.mem_cons_self (h ▸ hx)
+      have hxp : x ≠ p := fun h => hdis p (List.mem_cons_of_mem _ hp') (h ▸ hx)
+      have hki : k ≠ i := by
+        intro h
+        have := protNode_idx_ne N f hnd x l hxn (hgl.2 l List.mem_cons_self) hxl
+        rw [hk, hi, h] at this; exact this rfl
+      have hkj : k ≠ j := by
+        intro h
+        have := protNode_idx_ne N f hnd x p hxn (hgl.2 p (List.mem_cons_of_mem _ hp')) hxp
+        rw [hk, hj, h] at this; exact this rfl
+      rw [mergeStep_getD gs i j k hij (by omega) (by omega)]
+      simp only [hkj, hki, if_false]
+      exact hb x hx k hk
+    · exact ⟨rfl, fun _ _ _ _ => rfl⟩
+  -- phase 2: the merges of `L`
+  have hmid := applyLeaf_gather N f hnd l0 hl0n i0 hi0 rest (applyLeaves (idxOf N) N pre) hpre.1 hLnd.2 hLnd.1
+    (fun p hp => hgL.2 p (List.mem_cons_of_mem _ hp))
+    (fun p hp i hi q hq => by rw [hpre.2 p (List.mem_cons_of_mem _ hp) i hi]; exact hq)
+  have hmid' : (applyLeaf (idxOf N) (applyLeaves (idxOf N) N pre) (l0 :: rest)).length = N.length ∧
+      ∀ p ∈ l0 :: rest, ∀ i, idxOf N p = some i → ∀ q ∈ N.getD i [],
+        q ∈ (applyLeaf (idxOf N) (applyLeaves (idxOf N) N pre) (l0 :: rest)).getD i0 [] := by
+    simp only [applyLeaf]
+    refine ⟨hmid.1, ?_⟩
+    intro p hp i hi q hq
+    rcases List.mem_cons.mp hp with rfl | hp
+    · rw [hi0] at hi
+      simp only [Option.some.injEq] at hi; subst hi
+      apply hmid.2.1
+      rw [hpre.2 p List.mem_cons_self i0 hi0]; exact hq
+    · exact hmid.2.2 p hp i hi q hq
+  -- phase 3: the leaves after `L` never empty the slot
+  rw [applyLeaves_append]
+  simp only [applyLeaves, List.foldl_cons]
+  have hpost := applyLeaves_inv (idxOf N) (fun gs => gs.length = N.length ∧
+      ∀ p ∈ l0 :: rest, ∀ i, idxOf N p = some i → ∀ q ∈ N.getD i [], q ∈ gs.getD i0 []) post
+      (applyLeaf (idxOf N) (applyLeaves (idxOf N) N pre) (l0 :: rest)) ?_ hmid'
+  · exact hpost.2
+  · intro gs l p hp ⟨hlen, hb⟩
+    obtain ⟨r', hm', hp'⟩ := hp
+    have hmp : MergePair (pre ++ (l0 :: rest) :: post) l p :=
+      ⟨r', List.mem_append_right _ (List.mem_cons_of_mem _ hm'), hp'⟩
+    obtain ⟨i, j, hi, hj, hij, hilt, hjlt, _, _, _, _, hm⟩ := mergePair_spec N f hnd _ hg l p hmp
+    rw [hm gs]
+    refine ⟨by rw [mergeStep_length, hlen], ?_⟩
+    intro x hx k hk q hq
+    have hgl := hg (l :: r') (List.mem_append_right _ (List.mem_cons_of_mem _ hm'))
+    have hdis := hdpost.1 (l :: r') hm'
+    have hl0p : l0 ≠ p := fun h => hdis l0 List.mem_cons_self (h ▸ List.mem_cons_of_mem _ hp')
+    have hi0j : i0 ≠ j := by
+      intro h
+      have := protNode_idx_ne N f hnd l0 p hl0n (hgl.2 p (List.mem_cons_of_mem _ hp')) hl0p
+      rw [hi0, hj, h] at this; exact this rfl
+    rw [mergeStep_getD gs i j i0 hij (by omega) (by omega)]
+    simp only [hi0j, if_false]
+    by_cases hi0i : i0 = i
+    · simp only [hi0i, if_true]
+      exact List.mem_append_left _ (hi0i ▸ hb x hx k hk q hq)
+    · simp only [hi0i, if_false]
+      exact hb x hx k hk q hq
+
+/-! ### the cutoff score -/
+
+theorem minRat_spec : ∀ (l : List Rat) (m : Rat), minRat l = some m → m ∈ l ∧ ∀ x ∈ l, m ≤ x := by
+  intro l
+  induction l with
+  | nil => intro m h; simp [minRat] at h
+  | cons a r ih =>
+    intro m h
+    simp only [minRat] at h
+    cases hr : minRat r with
+    | none =>
+      simp only [hr, Option.some.injEq] at h
+      subst h
+      have : r = [] := by
+        cases r with
+        | nil => rfl
+        | cons b t =>
+          simp only [minRat] at hr
+          cases h' : minRat t <;> simp [h'] at hr
+      subst this
+      simp
+    | some m' =>
+      simp only [hr, Option.some.injEq] at h
+      obtain ⟨hm', hle⟩ := ih m' hr
+      by_cases ha : a ≤ m'
+      · simp only [ha, if_true] at h
+        subst h
+        refine ⟨List.mem_cons_self, ?_⟩
+        intro x hx
+        rcases List.mem_cons.mp hx with rfl | hx
+        · exact le_refl _
+        · exact le_trans ha (hle x hx)
+      · simp only [ha, if_false] at h
+        subst h
+        refine ⟨List.mem_cons_of_mem _ hm', ?_⟩
+        intro x hx
+        rcases List.mem_cons.mp hx with rfl | hx
+        · exact le_of_lt (lt_of_not_ge ha)
+        · exact hle x hx
+
+theorem minRat_none (l : List Rat) : minRat l = none ↔ l = [] := by
+  cases l with
+  | nil => simp [minRat]
+  | cons a r =>
+    simp only [minRat]
+    cases minRat r <;> simp
+
+/-! ### inseparable components, for every cut map -/
+
+/-- a connected set `c` of nodes can be separated by removing shared peptides: some non-empty set of
+    pseudo-peptide nodes of `c` leaves at least two parts (two remaining nodes are no longer connected)
+    and every part keeps at least two nodes (every remaining node is still connected to another one) -/
+def SeparableSet (es : List (String × String)) (isProt : String → Bool) (c : List String) : Prop :=
+  ∃ cut : List String, cut ≠ [] ∧ (∀ x ∈ cut, x ∈ c ∧ isProt x = false) ∧
+    (∃ x y, x ∈ c ∧ x ∉ cut ∧ y ∈ c ∧ y ∉ cut ∧ ¬ ConnIn es (c.filter (fun z => decide (z ∉ cut))) x y) ∧
+    (∀ x, x ∈ c → x ∉ cut → ∃ y, y ≠ x ∧ ConnIn es (c.filter (fun z => decide (z ∉ cut))) x y)
+
+theorem two_le_length_of_two_mem {α : Type} (l : List α) (x y : α) (hx : x ∈ l) (hy : y ∈ l) (hne : x ≠ y) :
+    2 ≤ l.length := by
+  match l, hx, hy with
+  | [], hx, _ => simp at hx
+  | [a], hx, hy =>
+    simp only [List.mem_singleton] at hx hy
+    exact absurd (hx.trans hy.symm) hne
+  | _ :: _ :: _, _, _ => simp
+
+/-- the executable reading of `SeparableSet` (what the model's component function computes) -/
+theorem separable_of_separableSet (es : List (String × String)) (isProt : String → Bool) (c : List String)
+    (h : SeparableSet es isProt c) : Separable es isProt c := by
+  obtain ⟨cut, hne, hcut, ⟨x, y, hx, hxc, hy, hyc, hnot⟩, hpart⟩ := h
+  refine ⟨cut, hne, hcut, ?_, ?_⟩
+  · by_contra hlt
+    have hxF : x ∈ c.filter (fun z => decide (z ∉ cut)) := by simp [List.mem_filter, hx, hxc]
+    have hyF : y ∈ c.filter (fun z => decide (z ∉ cut)) := by simp [List.mem_filter, hy, hyc]
+    obtain ⟨c1, hc1, hx1⟩ := comps_cover es _ x hxF
+    obtain ⟨c2, hc2, hy2⟩ := comps_cover es _ y hyF
+    have hc12 : c1 = c2 := by
+      have hl1 : (comps es (c.filter (fun z => decide (z ∉ cut)))).length ≤ 1 := by omega
+      match hcs : comps es (c.filter (fun z => decide (z ∉ cut))), hl1 with
+      | [], _ => rw [hcs] at hc1; simp at hc1
+      | [a], _ =>
+        rw [hcs] at hc1 hc2
+        simp only [List.mem_singleton] at hc1 hc2
+        rw [hc1, hc2]
+      | _ :: _ :: _, h2 => simp at h2
+    subst hc12
+    exact hnot (comps_connIn es _ c1 hc1 x y hx1 hy2)
+  · intro part hp
+    obtain ⟨s, hs, rfl⟩ := comps_spec es _ part hp
+    have hs' := List.mem_filter.mp hs
+    obtain ⟨y, hys, hconn⟩ := hpart s hs'.1 (by simpa using hs'.2)
+    exact two_le_length_of_two_mem _ s y (seed_mem_component es _ s)
+      ((mem_component_iff es _ s hs y).mpr hconn) (Ne.symm hys)
+
+/-- an inseparable connected set ends as one leaf holding all its protein nodes — for *every* cut map.
+    `R` collects the pseudo-peptide nodes removed so far; as long as `c` is inseparable every accepted
+    cut leaves a single part, so the tree is a path and no protein node is ever split off. -/
+theorem decouple_inseparable_gen (es : List (String × String)) (cuts : CutMap) (isProt : String → Bool)
+    (c : List String) (hins : ¬ SeparableSet es isProt c) :
+    ∀ (fuel : Nat) (nodes R : List String) (lvs : List (List String)),
+      (∀ x ∈ R, x ∈ c ∧ isProt x = false) → (∀ x, x ∈ nodes ↔ x ∈ c ∧ x ∉ R) →
+      decouple es cuts isProt fuel nodes = .ok lvs →
+      ∃ leaf, lvs = [leaf] ∧ ∀ x, x ∈ leaf ↔ x ∈ c ∧ isProt x = true := by
+  intro fuel
+  induction fuel with
+  | zero => intro nodes R lvs _ _ h; simp [decouple] at h
+  | succ fuel ih =>
+    intro nodes R lvs hR hnodes h
+    have hleafA : ∀ x, x ∈ sortDedup (nodes.filter isProt) ↔ x ∈ c ∧ isProt x = true := by
+      intro x
+      rw [mem_sortDedup, List.mem_filter, hnodes]
+      constructor
+      · rintro ⟨⟨hc, _⟩, hp⟩; exact ⟨hc, hp⟩
+      · rintro ⟨hc, hp⟩
+        refine ⟨⟨hc, fun hr => ?_⟩, hp⟩
+        have := (hR x hr).2
+        rw [hp] at this; simp at this
+    simp only [decouple] at h
+    by_cases hA : (sortDedup (nodes.filter isProt)).length ≤ 1
+    · simp only [hA, if_true, Except.ok.injEq] at h
+      exact ⟨_, h.symm, hleafA⟩
+    · simp only [hA, if_false] at h
+      cases hs : splitLoop es nodes (sortDedup (nodes.filter (fun x => !isProt x))) cuts
+          (pairs (sortDedup (nodes.filter isProt))) [] [] with
+      | error e => simp [hs] at h
+      | ok subs =>
+        simp only [hs] at h
+        cases subs with
+        | nil =>
+          simp only [Except.ok.injEq] at h
+          exact ⟨_, h.symm, hleafA⟩
+        | cons s0 subs =>
+          simp only at h
+          rcases splitLoop_spec es nodes _ cuts _ _ _ _ hs with hb | ⟨cut, hne, hB, hsub, hlen⟩
+          · simp at hb
+          · -- the removed nodes so far, plus this cut
+            have hcut : ∀ x ∈ cut, x ∈ c ∧ isProt x = false ∧ x ∈ nodes := by
+              intro x hx
+              have := hB x hx
+              rw [mem_sortDedup] at this
+              have hm := List.mem_filter.mp this
+              exact ⟨((hnodes x).mp hm.1).1, by simpa using hm.2, hm.1⟩
+            have hR' : ∀ x ∈ R ++ cut, x ∈ c ∧ isProt x = false := by
+              intro x hx
+              rcases List.mem_append.mp hx with hx | hx
+              · exact hR x hx
+              · exact ⟨(hcut x hx).1, (hcut x hx).2.1⟩
+            have hmemF : ∀ x, x ∈ nodes.filter (fun z => decide (z ∉ cut)) ↔
+                x ∈ c.filter (fun z => decide (z ∉ R ++ cut)) := by
+              intro x
+              simp only [List.mem_filter, decide_eq_true_eq, hnodes, List.mem_append, not_or]
+              tauto
+            -- all parts are of size ≥ 2 and pairwise not connected: at most one part, or `c` is separable
+            have hparts2 : ∀ part ∈ s0 :: subs, 2 ≤ part.length := by
+              intro part hp
+              have h1 := hlen part hp
+              have h2 : part ≠ [] := (comps_sound es _ part (hsub ▸ hp)).2.2
+              have : part.length ≠ 0 := fun h0 => h2 (List.length_eq_zero_iff.mp h0)
+              omega
+            have hone : subs = [] := by
+              by_contra hsubs
+              apply hins
+              obtain ⟨s1, subs', rfl⟩ := List.exists_cons_of_ne_nil hsubs
+              have hdisj : (s0 :: s1 :: subs').Pairwise Disj := hsub ▸ comps_disj es _
+              have hs0m : s0 ∈ comps es (nodes.filter (fun z => decide (z ∉ cut))) := hsub ▸ List.mem_cons_self
+              have hs1m : s1 ∈ comps es (nodes.filter (fun z => decide (z ∉ cut))) :=
+                hsub ▸ List.mem_cons_of_mem _ List.mem_cons_self
+              obtain ⟨x, hx⟩ := List.exists_mem_of_ne_nil s0 (comps_sound es _ s0 hs0m).2.2
+              obtain ⟨y, hy⟩ := List.exists_mem_of_ne_nil s1 (comps_sound es _ s1 hs1m).2.2
+              have hxF := (comps_sound es _ s0 hs0m).1 x hx
+              have hyF := (comps_sound es _ s1 hs1m).1 y hy
+              have hxF' := List.mem_filter.mp ((hmemF x).mp hxF)
+              have hyF' := List.mem_filter.mp ((hmemF y).mp hyF)
+              refine ⟨R ++ cut, ?_, hR', ⟨x, y, hxF'.1, by simpa using hxF'.2, hyF'.1, by simpa using hyF'.2, ?_⟩, ?_⟩
+              · obtain ⟨z, hz⟩ := List.exists_mem_of_ne_nil cut hne
+                exact List.ne_nil_of_mem (List.mem_append_right R hz)
+              · intro hconn
+                have hconn' := connIn_congr es _ _ (fun z => (hmemF z).symm) x y hconn
+                -- then `y` would be in the component `s0`
+                obtain ⟨sd, hsd, rfl⟩ := comps_spec es _ s0 hs0m
+                have h1 := (mem_component_iff es _ sd hsd x).mp hx
+                have h2 : y ∈ component es _ sd :=
+                  (mem_component_iff es _ sd hsd y).mpr (connIn_trans es _ sd x y h1 hconn')
+                have := (List.pairwise_cons.mp hdisj).1 s1 List.mem_cons_self
+                exact this y h2 hy
+              · intro x hxc hxr
+                have hxF : x ∈ nodes.filter (fun z => decide (z ∉ cut)) :=
+                  (hmemF x).mpr (List.mem_filter.mpr ⟨hxc, by simpa using hxr⟩)
+                obtain ⟨part, hpart, hxp⟩ := comps_cover es _ x hxF
+                have h2 := hparts2 part (hsub ▸ hpart)
+                have hnd := comps_nodup es _ part hpart
+                -- a second member of the part
+                have : ∃ y ∈ part, y ≠ x := by
+                  by_contra hall0
+                  have hall : ∀ y ∈ part, y = x := by
+                    intro y hy
+                    by_contra hne
+                    exact hall0 ⟨y, hy, hne⟩
+                  have : part = [x] := by
+                    match part, h2, hnd, hxp, hall with
+                    | a :: b :: t, _, hnd, _, hall =>
+                      have ha := hall a List.mem_cons_self
+                      have hb := hall b (List.mem_cons_of_mem _ List.mem_cons_self)
+                      rw [ha, hb] at hnd
+                      simp at hnd
+                  rw [this] at h2; simp at h2
+                obtain ⟨y, hy, hyx⟩ := this
+                exact ⟨y, hyx, connIn_congr es _ _ hmemF x y (comps_connIn es _ part hpart x y hxp hy)⟩
+            subst hone
+            -- the single part is all that is left
+            have hs0m : s0 ∈ comps es (nodes.filter (fun z => decide (z ∉ cut))) := hsub ▸ List.mem_cons_self
+            have hs0 : ∀ x, x ∈ s0 ↔ x ∈ c ∧ x ∉ R ++ cut := by
+              intro x
+              constructor
+              · intro hx
+                have := (hmemF x).mp ((comps_sound es _ s0 hs0m).1 x hx)
+                have := List.mem_filter.mp this
+                exact ⟨this.1, by simpa using this.2⟩
+              · rintro ⟨hxc, hxr⟩
+                have hxF : x ∈ nodes.filter (fun z => decide (z ∉ cut)) :=
+                  (hmemF x).mpr (List.mem_filter.mpr ⟨hxc, by simpa using hxr⟩)
+                obtain ⟨part, hpart, hxp⟩ := comps_cover es _ x hxF
+                rw [← hsub] at hpart
+                simp only [List.mem_singleton] at hpart
+                exact hpart ▸ hxp
+            simp only [collect] at h
+            cases hd : decouple es cuts isProt fuel s0 with
+            | error e => simp [hd] at h
+            | ok x =>
+              simp only [hd, List.append_nil, Except.ok.injEq] at h
+              subst h
+              exact ih s0 (R ++ cut) x hR' hs0 hd
+
+/-- the leaf of an inseparable component, for every cut map -/
+theorem leaves_inseparable (N : Groups) (f : List PepInfo) (cuts : CutMap) (lvs : List (List String))
+    (h : leaves N f cuts = .ok lvs)
+    (c : List String) (hc : c ∈ comps (edges N f) (allNodes N f))
+    (hins : ¬ SeparableSet (edges N f) (fun x => decide (x ∈ protNodes N f)) c) :
+    ∃ leaf ∈ lvs, ∀ x, x ∈ leaf ↔ x ∈ c ∧ x ∈ protNodes N f := by
+  unfold leaves at h
+  obtain ⟨x, hx, hsub⟩ := collect_ok_mem _ _ _ h c hc
+  obtain ⟨leaf, rfl, hmem⟩ := decouple_inseparable_gen _ cuts _ c hins _ c [] x (by simp) (by simp) hx
+  exact ⟨leaf, hsub _ List.mem_cons_self, fun y => by simpa using hmem y⟩
 
 end PgFdr.C04
